@@ -272,7 +272,8 @@ PROPS["C02"] = {
     "engines": [{"name": "hist", "quick": 4000, "thorough": 100000},
                 {"name": "pkgreg", "quick": 1500, "thorough": 40000},
                 {"name": "meta", "quick": 3000, "thorough": 60000},
-                {"name": "keptargs", "quick": 1, "thorough": 1, "deterministic": True}],
+                {"name": "keptargs", "quick": 1, "thorough": 1, "deterministic": True},
+                {"name": "heldargs", "quick": 2000, "thorough": 60000}],
     "technique": "Lean 4 frame theorem over a Go slice/array heap model + regenerated append-site facts + differential correspondence on operation histories",
     "level_text": "Kernel-checked: every collection builtin, modelled at the level of Go slices (backing array, offset, length, capacity, append in place "
                   "when capacity allows), refines its pure meaning and leaves every live value reading back unchanged (step_frame), hence histories of any "
